@@ -1,4 +1,5 @@
 import FFVerif.Props.C12
+import FFVerif.Pins.pinIdentityElementIndex
 #print axioms FFVerif.C12.cm_energy_offset
 #print axioms FFVerif.C12.ff_energy_offset
 #print axioms FFVerif.C12.cm_basis_change
@@ -7,3 +8,4 @@ import FFVerif.Props.C12
 #print axioms FFVerif.C12.ff_basis_independent_real
 #print axioms FFVerif.C12.cm_frame_covariance
 #print axioms FFVerif.C12.ff_frame_independent
+#print axioms FFVerif.Pins.pinIdentityElementIndex
